@@ -98,6 +98,20 @@ def replay(payload):
         os.environ.pop("SIMKIT_RAW_REPLAY", None)
         print("replayed: %s %s" % (st, json.dumps(r)[:500] if r is not None else None))
         return st == "crash" or (st == "ok" and r is not None)
+    if prop == "C39" and not payload.get("corpus"):
+        cell = [c for c in C39_CELLS if c["cell"] == payload["cell"]][0]
+        name = "wit39_" + core.digest([payload["src"], cell["cell"]])[:10]
+        kw = dict(cflags=tuple(cell.get("cflags", ())), directives=cell.get("directives"), cplus=cell.get("cplus", False))
+        if "history" in payload:
+            so = build.build_ext(name, payload["src"], ".py", **kw)
+            st, r = core.run_one_forked(e3_gen.run_single, {"name": name, "src": payload["src"], "so": so}, payload["history"], timeout=60)
+        else:
+            name = "wl22_" + name
+            so = build.build_ext(name, payload["src"], ".py", **kw)
+            st, r = core.run_one_forked(e4_exc.run_single, {"name": name, "src": payload["src"], "so": so, "nfuncs": 99},
+                                        payload["func"], payload["arg"], payload["plan"], "C22", timeout=60)
+        print("replayed in cell %s: %s %s" % (cell["cell"], st, json.dumps(r)[:400] if r is not None else None))
+        return st == "crash" or (st == "ok" and r is not None)
     if payload.get("corpus"):
         from . import rider_corpus
         seed = payload.get("seed", 0)
@@ -316,6 +330,7 @@ def check_C36(tier):
         rep.probes["corpus_cases_under_sanitizers"] = len(r)
     else:
         note("corpus", -1, {"klass": "crash", "detail": {"status": st, "info": r}, "corpus": True}, None)
+    core.replay_known(prop, replay, rep)
     rep.probes["sanitizer_runtime_loaded"] = int("libasan" in os.environ.get("LD_PRELOAD", ""))
     reports = _san_reports(logdir, t0) if logdir else []
     rep.probes["sanitizer_report_files"] = len(reports)
@@ -385,6 +400,7 @@ def check_C39(tier):
                 "the default build is the host property's business and only counted. quick: C++ + 2 seeded cells; thorough: all cells")
     rep.components = {"real": ["generated C compiled under each configuration cell", "Cython/Utility/ModuleSetupCode.c feature macros", "g++ for the C++ cells"],
                       "stub": ["as in the host engines"]}
+    rep.quarantined = ["F21: in the limited_api cell the abandonment events (del / final-del / asyncgen finalizer) of E3 histories are not compared"]
     rep.assumptions = ["rider: only the simulated workloads are compared across cells", "a workload that does not build in a cell (e.g. Limited API) is recorded and dropped, not alarmed"]
     budget = core.env_budget(110 if tier == "quick" else 1800)
     rng = core.rng_for(prop + ":cells", seed, 0)
@@ -407,7 +423,8 @@ def check_C39(tier):
         build.build_ext = patched
         try:
             viol3, mods3 = e3_gen.explore(rep, seed, tier, tag, cflags=cflags, directives=directives, budget=per_cell * 0.3,
-                                          nruns=320 if tier == "quick" else 3200, nmods=2 if tier == "quick" else 4, prop=prop)
+                                          nruns=320 if tier == "quick" else 3200, nmods=2 if tier == "quick" else 4, prop=prop,
+                                          extra_cfg={"no_abandon_compare": True} if c["cell"] == "limited_api" else None)
             viol4, mods4, cfg4 = e4_exc.explore(rep, prop, seed, tier, tag, cflags=cflags, directives=directives, budget=per_cell * 0.3,
                                                 nmods=2 if tier == "quick" else 4, extra_cfg={"single_cap": 30, "nmulti": 20})
             viol5, mods5, cfg5 = e5_refs.explore(rep, seed, tier, tag, cflags=cflags, budget=per_cell * 0.2, nmods=2 if tier == "quick" else 4, prop=prop)
@@ -478,6 +495,7 @@ def check_C39(tier):
                               {"klass": "corpus-differs-between-cells", "cell": cell, "detail": dict(d, a_is="default", b_is=cell,
                                python_says=(m[d["index"]] if d["index"] < len(m) else None)), "property": prop, "corpus": True, "seed": seed})
                 break
+    core.replay_known(prop, replay, rep)
     rep.determinism = {"seeds": 0, "mismatches": 0, "note": "host engines' self-checks apply"}
     seen = set()
     for cell, eng, i, v in found:
